@@ -73,7 +73,8 @@ _DONE = re.compile(rb"Hub push complete: (\d+) sent, (\d+) unchanged, (\d+) conf
 
 def hub_sync(local, hub, form, env=None):
     target = hub if form == "path" else f"hh:{hub}"
-    p = subprocess.run([CFG["copia"], "hub-sync", local, target], env=env or _env(), stdout=subprocess.PIPE, stderr=subprocess.PIPE, timeout=120)
+    # cwd = the worker's scratch directory: a client that misreads the target as a relative path litters there, not in /verif
+    p = subprocess.run([CFG["copia"], "hub-sync", local, target], env=env or _env(), cwd=CFG["dir"], stdout=subprocess.PIPE, stderr=subprocess.PIPE, timeout=120)
     m = _DONE.search(p.stdout)
     s, u, c = (int(x) for x in m.groups()) if m else (-1, -1, -1)
     return p.returncode, s, u, c, p.stderr.decode("utf8", "replace")[-200:]
@@ -92,7 +93,7 @@ def run_history(job):
     seed, length = job
     rng = random.Random(seed)
     d = CFG["dir"]
-    hub = os.path.join(d, "hub")
+    hub = os.path.join(d, "hub:2026-09-25T10:30")
     shutil.rmtree(hub, ignore_errors=True)
     os.makedirs(hub)
     locs = [[rng.choice([0, 1, 2, 3, 4 if rng.random() < 0.2 else 2]) for _ in NAMES] for _ in range(2)]
@@ -124,7 +125,7 @@ def race(job):
     hold_at = job[2] if len(job) > 2 else "stage"
     rng = random.Random(seed)
     d = CFG["dir"]
-    hub = os.path.join(d, "hub")
+    hub = os.path.join(d, "hub:2026-09-25T10:30")
     hub0 = [rng.choice([0, 1]) for _ in NAMES]
     write_tree(hub, hub0)
     # (the name the wire cannot carry makes a client refuse to start: it is left to the sequential runs)
